@@ -5,6 +5,7 @@ package sysbind
 import (
 	"fmt"
 	"net"
+	"os"
 	"strings"
 	"sync"
 	"time"
@@ -16,6 +17,7 @@ import (
 	"github.com/DistCompiler/pgo/systems/raftkvs/bootstrap"
 	"github.com/DistCompiler/pgo/systems/raftkvs/configs"
 	"github.com/dgraph-io/badger/v3"
+	"pgregory.net/rapid"
 
 	"verif/harness/hx"
 	"verif/harness/sched"
@@ -45,6 +47,7 @@ type DeployedRaft struct {
 	RespCh  []chan bootstrap.Response
 	// ReadMismatch is set by the End hook when a committed attempt read a per-server variable and did not get the value last committed on that server
 	ReadMismatch string
+	Submitted    int // requests handed to the clients
 	view         *Raft
 }
 
@@ -58,21 +61,27 @@ type DeployedOpts struct {
 	ClientTimeout          time.Duration
 }
 
+var nextPort = 20000 + (os.Getpid()*7919)%9000
+
+// freeAddrs picks loopback ports below the ephemeral range (so that no outgoing connection of any process can
+// take one between the probe and the deployment's own, lazy, bind) and probes each.
 func freeAddrs(k int) ([]string, error) {
-	var ls []net.Listener
 	var out []string
-	defer func() {
-		for _, l := range ls {
-			l.Close()
+	for tries := 0; len(out) < k && tries < 20000; tries++ {
+		nextPort++
+		if nextPort >= 32000 {
+			nextPort = 20000
 		}
-	}()
-	for i := 0; i < k; i++ {
-		l, err := net.Listen("tcp", "127.0.0.1:0")
+		addr := fmt.Sprintf("127.0.0.1:%d", nextPort)
+		l, err := net.Listen("tcp", addr)
 		if err != nil {
-			return nil, err
+			continue
 		}
-		ls = append(ls, l)
-		out = append(out, l.Addr().String())
+		l.Close()
+		out = append(out, addr)
+	}
+	if len(out) < k {
+		return nil, fmt.Errorf("no free loopback ports")
 	}
 	return out, nil
 }
@@ -288,4 +297,168 @@ func (d *DeployedRaft) Close() {
 	for _, db := range d.dbs {
 		db.Close()
 	}
+}
+
+
+// DeployedRun is one scheduled execution of the deployed wiring.
+type DeployedRun struct {
+	D         *DeployedRaft
+	Hist      strings.Builder
+	Steps     int
+	Commits   int
+	Elections int
+	StepNo    int
+	Crashes   []int
+}
+
+type DeployedDriveOpts struct {
+	MinClients, MaxClients int
+	StepChoices            []int
+	// OnCommit is called after every committed attempt; a non-empty string is a violation.
+	OnCommit func(run *DeployedRun, in *sched.Instance, st sched.Step) string
+	// Done: stop early; checked every few attempts.
+	Done func(run *DeployedRun) bool
+	// AtEnd runs after the last scheduled attempt, before anything is shut down.
+	AtEnd func(run *DeployedRun) string
+}
+
+// DriveDeployed draws a deployment, a workload, a crash plan and a schedule, and runs it. The caller must Close run.D.
+func DriveDeployed(t *rapid.T, dopt DeployedDriveOpts) (*DeployedRun, string) {
+	n := rapid.SampledFrom([]int{1, 2, 3, 3, 3, 5}).Draw(t, "servers")
+	nc := rapid.IntRange(dopt.MinClients, dopt.MaxClients).Draw(t, "clients")
+	o := DeployedOpts{NumServers: n, NumClients: nc,
+		Persist:         rapid.IntRange(0, 3).Draw(t, "persist") == 0,
+		ElectionTimeout: time.Duration(rapid.SampledFrom([]int{1, 3}).Draw(t, "election-ms")) * time.Millisecond,
+		ElectionOffset:  time.Millisecond,
+		HeartbeatEvery:  time.Millisecond,
+		ReceiveChanSize: rapid.SampledFrom([]int{3, 10, 100}).Draw(t, "chan-size"),
+		ClientTimeout:   time.Duration(rapid.SampledFrom([]int{20, 80}).Draw(t, "client-timeout-ms")) * time.Millisecond,
+	}
+	d, err := NewDeployedRaft(o, func(in *sched.Instance, id string, k uint) uint {
+		return uint(rapid.IntRange(0, int(k)-1).Draw(t, id))
+	})
+	run := &DeployedRun{D: d}
+	if err != nil {
+		return run, "INCONCLUSIVE: " + err.Error()
+	}
+	keys := []string{"k1", "k2"}[:rapid.IntRange(1, 2).Draw(t, "keys")]
+	tok := 0
+	for c := 0; c < nc; c++ {
+		for i, m := 0, rapid.IntRange(1, 4).Draw(t, "ops"); i < m; i++ {
+			key := keys[rapid.IntRange(0, len(keys)-1).Draw(t, "key")]
+			if rapid.IntRange(0, 9).Draw(t, "isput") < 6 {
+				tok++
+				d.ReqCh[c] <- bootstrap.PutRequest{Key: key, Value: fmt.Sprintf("v%d", tok)}
+			} else {
+				d.ReqCh[c] <- bootstrap.GetRequest{Key: key}
+			}
+			d.Submitted++
+		}
+		ch := d.RespCh[c]
+		go func() {
+			for range ch {
+			}
+		}()
+	}
+	budget := rapid.SampledFrom(dopt.StepChoices).Draw(t, "steps")
+	electPct := rapid.SampledFrom([]int{1, 3, 10}).Draw(t, "electpct")
+	crashAt := map[int]int{}
+	for i, k := 0, rapid.IntRange(0, (n-1)/2).Draw(t, "crashes"); i < k; i++ {
+		crashAt[rapid.IntRange(1, n).Draw(t, "crash-server")] = rapid.IntRange(0, budget).Draw(t, "crash-step")
+	}
+	var all []*sched.Instance
+	for _, g := range d.Insts {
+		all = append(all, g...)
+	}
+	all = append(all, d.CInsts...)
+	for step := 0; step < budget; {
+		for s := 1; s <= n; s++ {
+			if at, ok := crashAt[s]; ok && step >= at && !d.Crashed[s] {
+				d.Crashed[s] = true
+				run.Crashes = append(run.Crashes, s)
+				fmt.Fprintf(&run.Hist, "-- server %d crashes (step %d)\n", s, step)
+			}
+		}
+		var cand []*sched.Instance
+		var w []int
+		total := 0
+		for _, in := range all {
+			node := d.NodeOf(in)
+			if !in.Live || (node <= n && d.Crashed[node]) {
+				continue
+			}
+			wt := 10
+			if strings.HasPrefix(in.Name, "AServerRequestVote") {
+				wt = electPct // stepping it means that its election timer expires
+			} else if strings.HasPrefix(in.Name, "AServer(") {
+				wt = 30
+			}
+			cand = append(cand, in)
+			w = append(w, wt)
+			total += wt
+		}
+		if len(cand) == 0 {
+			break
+		}
+		x := rapid.IntRange(0, total-1).Draw(t, "who")
+		var in *sched.Instance
+		for i, c := range cand {
+			if x < w[i] {
+				in = c
+				break
+			}
+			x -= w[i]
+		}
+		for b, burst := 0, rapid.IntRange(1, 4).Draw(t, "burst"); b < burst && step < budget; b++ {
+			run.StepNo = step
+			st := d.Sim.Step(in)
+			step++
+			run.Steps++
+			switch st.Kind {
+			case sched.Committed:
+				run.Commits++
+				fmt.Fprintf(&run.Hist, "%d: %s commits %s\n", step-1, in.Name, short(st.PC))
+				if strings.HasSuffix(st.PC, "requestVoteLoop") {
+					run.Elections++
+				}
+				if st.Err != nil {
+					return run, fmt.Sprintf("%s ended with an error: %v", in.Name, st.Err)
+				}
+				if d.ReadMismatch != "" {
+					return run, "the five archetypes of a server do not share its state: " + d.ReadMismatch
+				}
+				if dopt.OnCommit != nil {
+					if msg := dopt.OnCommit(run, in, st); msg != "" {
+						return run, msg
+					}
+				}
+			case sched.Aborted:
+				b = burst
+			case sched.Exited:
+				if st.Err != nil {
+					return run, fmt.Sprintf("%s failed: %v", in.Name, st.Err)
+				}
+				b = burst
+			case sched.Stuck:
+				if e := d.RunErrors(); e != "" {
+					return run, "an archetype ended: " + e
+				}
+				return run, fmt.Sprintf("INCONCLUSIVE: %s stuck at %s", in.Name, st.PC)
+			default:
+				b = burst
+			}
+		}
+		if dopt.Done != nil && step%16 == 0 && dopt.Done(run) {
+			break
+		}
+	}
+	if e := d.RunErrors(); e != "" {
+		return run, "an archetype ended: " + e
+	}
+	if dopt.AtEnd != nil {
+		if msg := dopt.AtEnd(run); msg != "" {
+			return run, msg
+		}
+	}
+	return run, ""
 }
